@@ -141,6 +141,7 @@ theorem segMatchValues_sreach {rec : SegRec} {env : Env} (hrec : SegRecS env rec
     | num q => unfold segMatchValues; exact ih st
     | arr xs => unfold segMatchValues; exact ih st
     | obj kvs => unfold segMatchValues; exact ih st
+    | raw w => unfold segMatchValues; exact ih st
 
 theorem clauseMatch_sreach {rec : SegRec} {env : Env} (hrec : SegRecS env rec)
     (chain : List String) (c : Clause) (st : St) :
